@@ -457,6 +457,26 @@ def rule_cwd(A: Analysis, rep):
             rep.unknown("CWD4", "origin of %s in %s" % (kind, fq.replace("conductor.", "")), c, "path `%s` could not be traced" % norm(target))
         else:
             rep.ok("CWD4", "rooted effect %s in %s" % (kind, fq.replace("conductor.", "")), c, "path class %s" % cls)
+    # filesystem *queries* on a relative path are answered relative to the working directory as well
+    QUERIES = ("exists", "is_dir", "is_file", "is_symlink", "iterdir", "stat", "lstat", "glob", "rglob", "read_text", "read_bytes")
+    n_q = 0
+    for f in A.prog.scan_functions:
+        if f.fq not in reach and not f.fq.startswith("conductor.cli") and not f.fq.startswith("conductor.lib.path"):
+            continue
+        for c in walk_local(f.node):
+            target = None
+            if isinstance(c, ast.Call) and isinstance(c.func, ast.Attribute) and c.func.attr in QUERIES and not c.args:
+                target = c.func.value
+            elif isinstance(c, ast.Call) and norm(c.func) in ("os.path.exists", "os.path.isdir", "os.path.isfile", "os.listdir", "os.stat") and c.args:
+                target = c.args[0]
+            if target is None:
+                continue
+            n_q += 1
+            cls = path_class(A, f, target)
+            if cls in ("REL", "CWD"):
+                rep.bad("CWD4", "rooted query %s in %s" % (norm(c.func).rsplit(".", 1)[-1], f.fq.replace("conductor.", "")), c,
+                        "`%s` is %s-relative: the answer depends on the directory the command was started from" % (norm(target), cls))
+    rep.check(n_q >= 10, "CWD4", "filesystem queries inspected", None, "%d query call sites classified" % n_q, "only %d filesystem query sites found" % n_q, deep=False)
     # subprocess cwd=
     for f in A.prog.scan_functions:
         if f.fq not in reach:
@@ -551,6 +571,10 @@ def path_class(A: Analysis, fi, e: ast.expr, depth=0) -> str:
             return path_class(A, fi, e.args[0], depth + 1)
         if isinstance(e.func, ast.Attribute) and e.func.attr in ("with_name", "joinpath", "with_suffix", "resolve", "iterdir", "pop"):
             return path_class(A, fi, e.func.value, depth + 1)
+        if isinstance(e.func, ast.Attribute) and e.func.attr == "relative_to":
+            return "REL"     # a path made relative to something: resolved against the working directory when used
+        if fx == "os.path.relpath":
+            return "REL"
         for c in A.res.callees(e):
             f2 = A.prog.functions.get(c)
             if f2 is not None:
